@@ -376,11 +376,13 @@ func cmdCheck(args []string) int {
 	}
 	fmt.Fprintf(os.Stderr, "govc: %s %s: %d units, %d obligations claimed, %d discharged, %d violations, %d known findings, %d unproved(not claimed), load %dms, gen+solve %dms\n",
 		*prop, *tier, len(pr.Units), claimed, discharged, len(viols), len(known), len(unprovedSeen), pr.LoadMs, pr.SolveMs)
+	if len(viols) > 0 {
+		// a failed obligation is the verdict; an unreachable exit (e.g. every path of the unit now ends in the panic
+		// the failed obligation is about) is then a consequence, not a defect of the check
+		return 1
+	}
 	if vacuous > 0 {
 		return 2
-	}
-	if len(viols) > 0 {
-		return 1
 	}
 	return 0
 }
